@@ -262,3 +262,43 @@ def check_c15(v: Verdict, t1_summary, n_unions):
     v.obligation("correspondence:PASS/C15 (model outcome and applicability = implementation)", not bad,
                  "" if not bad else f"{len(bad)} of {len(cases)} disagree, first: {meta[bad[0]]}")
     v.coverage["input_distribution"] = hist
+
+
+def check_c02_passthrough(v: Verdict, n_unions):
+    """C02 over unions handled by the union-passthrough strategy (every preconfigured converter uses it), oracle only: a value
+    that comes back from structure(v, U) unchanged must be a value of U -- an instance of one of U's classes (NewTypes by
+    their base) or equal to one of U's literals and of that literal's class."""
+    rng = random.Random(v.seed * 7919 + 2015)
+    hist = {"unions": 0, "probes": 0, "passed_through": 0}
+    while hist["unions"] < n_unions:
+        u = gen_union(rng)
+        if u is None:
+            continue
+        s_members = rng.sample(CLASSES[:6], rng.randint(2, 6))
+        if rng.random() < 0.4:
+            s_members = [str, bool, int, float, NoneType]
+        conv = make_converter(rng, s_members)
+        try:
+            conv.get_structure_hook(u)
+        except Exception:
+            continue
+        hist["unions"] += 1
+        args = list(u.__args__)
+        for val in PROBES:
+            hist["probes"] += 1
+            obs = observe(conv, u, val)
+            v.count(repr(("C02", u, tuple(s_members), repr(val))), True)
+            if obs != ("pass",):
+                continue
+            hist["passed_through"] += 1
+            ok = False
+            for t in args:
+                if is_literal(t):
+                    ok = ok or any(lit.__class__ is val.__class__ and lit == val for lit in t.__args__)
+                else:
+                    b = get_newtype_base(t) or t
+                    ok = ok or (isinstance(b, type) and isinstance(val, b))
+            if not ok:
+                v.violation("structure returned a value that is not a value of the requested union (union passthrough)",
+                            {"lane": "PASS/C02", "union": repr(u), "configured": [c.__name__ for c in s_members], "value": repr(val), "returned": repr(val)})
+    v.coverage["passthrough_soundness"] = hist
